@@ -67,6 +67,19 @@ pub struct IPlan {
     pub bias_carry: bool,
     pub clients: Vec<ClientP>,
     pub ops: Vec<IOp>,
+    /// the five destinations the operations index (IPv4, IPv4, IPv6, IPv6, IPv4)
+    #[serde(default = "default_dsts")]
+    pub dsts: Vec<String>,
+}
+
+fn default_dsts() -> Vec<String> {
+    DSTS.iter().map(|s| s.to_string()).collect()
+}
+
+impl IPlan {
+    fn dst(&self, i: usize) -> IpAddr {
+        self.dsts.get(i).map(|s| s.as_str()).unwrap_or(DSTS[i % DSTS.len()]).parse().unwrap_or_else(|_| DSTS[i % DSTS.len()].parse().unwrap())
+    }
 }
 
 impl Scenario for Icmp {
@@ -199,6 +212,25 @@ impl Scenario for Icmp {
             bias_carry: rng.chance(1, 4),
             clients,
             ops,
+            // half of the runs: the five usual hosts; otherwise any address of the right family
+            // (ICMP destinations are not subject to the egress policy)
+            dsts: if rng.chance(1, 2) {
+                default_dsts()
+            } else {
+                (0..5)
+                    .map(|i| {
+                        if i == 2 || i == 3 {
+                            match rng.below(3) {
+                                0 => format!("2001:db8:{:x}::{:x}", rng.below(0x10000), 1 + rng.below(0xffff)),
+                                1 => format!("fe80::{:x}:{:x}", rng.below(0x10000), 1 + rng.below(0xffff)),
+                                _ => format!("2a0{:x}:{:x}:{:x}:{:x}:{:x}:{:x}:{:x}:{:x}", rng.below(16), rng.below(0x10000), rng.below(0x10000), rng.below(0x10000), rng.below(0x10000), rng.below(0x10000), rng.below(0x10000), 1 + rng.below(0xffff)),
+                            }
+                        } else {
+                            format!("{}.{}.{}.{}", 1 + rng.below(223), rng.below(256), rng.below(256), rng.below(256))
+                        }
+                    })
+                    .collect()
+            },
         };
         to_plan(&plan)
     }
@@ -664,7 +696,7 @@ async fn run(plan: IPlan) -> Obs {
         };
         match op {
             IOp::Request { client, id, dst, seq, ttl, size } => {
-                let dst_ip: IpAddr = DSTS[dst].parse().unwrap();
+                let dst_ip: IpAddr = plan.dst(dst);
                 let rec = request_record(id, dst_ip, seq, ttl, size);
                 let before = world::with(|w| w.icmp_sent.len());
                 let c = &mut clients[client];
@@ -701,7 +733,7 @@ async fn run(plan: IPlan) -> Obs {
             IOp::Burst { client, reqs, cuts } => {
                 let mut stream = Vec::new();
                 for (id, dst, seq, ttl, size) in &reqs {
-                    stream.extend(request_record(*id, DSTS[*dst].parse().unwrap(), *seq, *ttl, *size));
+                    stream.extend(request_record(*id, plan.dst(*dst), *seq, *ttl, *size));
                 }
                 let before = world::with(|w| w.icmp_sent.len());
                 let at = world::now_us();
@@ -717,7 +749,7 @@ async fn run(plan: IPlan) -> Obs {
                     }
                 }
                 // requests to an address family without a socket are dropped, the others leave in order
-                let expected: usize = reqs.iter().filter(|r| plan.ipv6 || DSTS[r.1].parse::<IpAddr>().unwrap().is_ipv4()).count();
+                let expected: usize = reqs.iter().filter(|r| plan.ipv6 || plan.dst(r.1).is_ipv4()).count();
                 for _ in 0..expected {
                     let have = world::with(|w| w.icmp_sent.len());
                     if have >= before + expected {
@@ -729,7 +761,7 @@ async fn run(plan: IPlan) -> Obs {
                 let got: Vec<world::IcmpSent> = world::with(|w| w.icmp_sent[before.min(w.icmp_sent.len())..].to_vec());
                 let mut next = 0usize;
                 for (n, r) in reqs.iter().enumerate() {
-                    let sendable = plan.ipv6 || DSTS[r.1].parse::<IpAddr>().unwrap().is_ipv4();
+                    let sendable = plan.ipv6 || plan.dst(r.1).is_ipv4();
                     let wire = if sendable {
                         let w = got.get(next).cloned();
                         next += 1;
@@ -803,7 +835,7 @@ fn judge(plan: &IPlan, o: &Obs, out: &mut Outcome) {
     // ---- every request leaves as one faithful echo -------------------------------------
     for s in &o.sent {
         let (id, dst, seq, ttl, size) = s.want;
-        let dst_ip: IpAddr = DSTS[dst].parse().unwrap();
+        let dst_ip: IpAddr = plan.dst(dst);
         let v4 = dst_ip.is_ipv4();
         let fam = if v4 { "v4" } else { "v6" };
         if !v4 && !plan.ipv6 {
